@@ -17,6 +17,7 @@ Inductive rkind :=
 | RRetry (d : decision) (* read/write timeout, unavailable, overloaded, bootstrapping, truncate, server error,
                            ConnectionException, ConnectionShutdown: the retry policy is consulted and answers d *)
 | ROther                (* any other ErrorMessage / Exception: becomes the final exception *)
+| RSetKs                (* ResultMessage kind SET_KEYSPACE (answer to USE): Session._set_keyspace_for_all_pools is started *)
 | RJunk.                (* a message that is neither a result nor an error *)
 Inductive tkind := TSpec | TTimeout (n : nat).   (* _on_speculative_execute | _on_timeout(_attempts = n) *)
 Record timer := mkTimer { tk : tkind; due : Z; cancelled : bool; fired : bool }.
@@ -25,14 +26,14 @@ Record pair := mkPair { cbs : list Z; ebs : list Z }.  (* values the callback / 
 
 (* outcome values: results 1 = None (VOID / IGNORE), 10 + a = the rows answered to attempt a;
    errors 1 = OperationTimedOut, 2 = OperationTimedOut("Connection defunct by heartbeat"), 3 = NoHostAvailable,
-   10 + a = the error answered to attempt a *)
+   4 = ConnectionException("Failed to set keyspace on all hosts"), 10 + a = the error answered to attempt a *)
 
 Record state := mkState {
   plan : list Z;   (* remaining query plan (the iterator self.query_plan) *)
   attempts : list attempt;   (* every message sent, in send order; index = request id handed out by the fake pool *)
   cur_host : option Z;   (* self._current_host *)
   cur_conn : option Z;   (* self._connection (one connection per host: identified by the host) *)
-  cur_req : option nat;   (* self._req_id (set by send_request only) *)
+  cur_req : option nat;   (* self._req_id (set by _query) *)
   retries : Z;   (* self._query_retries *)
   timers : list timer;   (* every timer ever created by create_timer, in creation order *)
   cur_timer : option nat;   (* self._timer (index into timers) *)
@@ -51,50 +52,56 @@ Record state := mkState {
   started : bool;   (* ghost: the initial send_request() happened *)
   tfired : bool;   (* ghost: _on_timeout ran past its reschedule branch in this page fetch *)
   results : list (Z * Z);   (* ghost: what result() returned (0,v) / raised (1,e), in call order *)
+  chains : list (list Z * bool);   (* keyspace propagations started by SET_KEYSPACE answers (Session._set_keyspace_for_all_pools): (pools that have not reported yet, an error was reported) *)
+  swallowed : Z;   (* exceptions that escaped a callback into the reactor / executor (always 0 in the model; the harness counts them) *)
 }.
 Definition set_plan (x : list Z) (s : state) : state :=
-  mkState x (attempts s) (cur_host s) (cur_conn s) (cur_req s) (retries s) (timers s) (cur_timer s) (specs s) (fres s) (fexc s) (event s) (pairs s) (paging s) (start s) (pstart s) (timeout s) (now s) (queue s) (pools s) (started s) (tfired s) (results s).
+  mkState x (attempts s) (cur_host s) (cur_conn s) (cur_req s) (retries s) (timers s) (cur_timer s) (specs s) (fres s) (fexc s) (event s) (pairs s) (paging s) (start s) (pstart s) (timeout s) (now s) (queue s) (pools s) (started s) (tfired s) (results s) (chains s) (swallowed s).
 Definition set_attempts (x : list attempt) (s : state) : state :=
-  mkState (plan s) x (cur_host s) (cur_conn s) (cur_req s) (retries s) (timers s) (cur_timer s) (specs s) (fres s) (fexc s) (event s) (pairs s) (paging s) (start s) (pstart s) (timeout s) (now s) (queue s) (pools s) (started s) (tfired s) (results s).
+  mkState (plan s) x (cur_host s) (cur_conn s) (cur_req s) (retries s) (timers s) (cur_timer s) (specs s) (fres s) (fexc s) (event s) (pairs s) (paging s) (start s) (pstart s) (timeout s) (now s) (queue s) (pools s) (started s) (tfired s) (results s) (chains s) (swallowed s).
 Definition set_cur_host (x : option Z) (s : state) : state :=
-  mkState (plan s) (attempts s) x (cur_conn s) (cur_req s) (retries s) (timers s) (cur_timer s) (specs s) (fres s) (fexc s) (event s) (pairs s) (paging s) (start s) (pstart s) (timeout s) (now s) (queue s) (pools s) (started s) (tfired s) (results s).
+  mkState (plan s) (attempts s) x (cur_conn s) (cur_req s) (retries s) (timers s) (cur_timer s) (specs s) (fres s) (fexc s) (event s) (pairs s) (paging s) (start s) (pstart s) (timeout s) (now s) (queue s) (pools s) (started s) (tfired s) (results s) (chains s) (swallowed s).
 Definition set_cur_conn (x : option Z) (s : state) : state :=
-  mkState (plan s) (attempts s) (cur_host s) x (cur_req s) (retries s) (timers s) (cur_timer s) (specs s) (fres s) (fexc s) (event s) (pairs s) (paging s) (start s) (pstart s) (timeout s) (now s) (queue s) (pools s) (started s) (tfired s) (results s).
+  mkState (plan s) (attempts s) (cur_host s) x (cur_req s) (retries s) (timers s) (cur_timer s) (specs s) (fres s) (fexc s) (event s) (pairs s) (paging s) (start s) (pstart s) (timeout s) (now s) (queue s) (pools s) (started s) (tfired s) (results s) (chains s) (swallowed s).
 Definition set_cur_req (x : option nat) (s : state) : state :=
-  mkState (plan s) (attempts s) (cur_host s) (cur_conn s) x (retries s) (timers s) (cur_timer s) (specs s) (fres s) (fexc s) (event s) (pairs s) (paging s) (start s) (pstart s) (timeout s) (now s) (queue s) (pools s) (started s) (tfired s) (results s).
+  mkState (plan s) (attempts s) (cur_host s) (cur_conn s) x (retries s) (timers s) (cur_timer s) (specs s) (fres s) (fexc s) (event s) (pairs s) (paging s) (start s) (pstart s) (timeout s) (now s) (queue s) (pools s) (started s) (tfired s) (results s) (chains s) (swallowed s).
 Definition set_retries (x : Z) (s : state) : state :=
-  mkState (plan s) (attempts s) (cur_host s) (cur_conn s) (cur_req s) x (timers s) (cur_timer s) (specs s) (fres s) (fexc s) (event s) (pairs s) (paging s) (start s) (pstart s) (timeout s) (now s) (queue s) (pools s) (started s) (tfired s) (results s).
+  mkState (plan s) (attempts s) (cur_host s) (cur_conn s) (cur_req s) x (timers s) (cur_timer s) (specs s) (fres s) (fexc s) (event s) (pairs s) (paging s) (start s) (pstart s) (timeout s) (now s) (queue s) (pools s) (started s) (tfired s) (results s) (chains s) (swallowed s).
 Definition set_timers (x : list timer) (s : state) : state :=
-  mkState (plan s) (attempts s) (cur_host s) (cur_conn s) (cur_req s) (retries s) x (cur_timer s) (specs s) (fres s) (fexc s) (event s) (pairs s) (paging s) (start s) (pstart s) (timeout s) (now s) (queue s) (pools s) (started s) (tfired s) (results s).
+  mkState (plan s) (attempts s) (cur_host s) (cur_conn s) (cur_req s) (retries s) x (cur_timer s) (specs s) (fres s) (fexc s) (event s) (pairs s) (paging s) (start s) (pstart s) (timeout s) (now s) (queue s) (pools s) (started s) (tfired s) (results s) (chains s) (swallowed s).
 Definition set_cur_timer (x : option nat) (s : state) : state :=
-  mkState (plan s) (attempts s) (cur_host s) (cur_conn s) (cur_req s) (retries s) (timers s) x (specs s) (fres s) (fexc s) (event s) (pairs s) (paging s) (start s) (pstart s) (timeout s) (now s) (queue s) (pools s) (started s) (tfired s) (results s).
+  mkState (plan s) (attempts s) (cur_host s) (cur_conn s) (cur_req s) (retries s) (timers s) x (specs s) (fres s) (fexc s) (event s) (pairs s) (paging s) (start s) (pstart s) (timeout s) (now s) (queue s) (pools s) (started s) (tfired s) (results s) (chains s) (swallowed s).
 Definition set_specs (x : list Z) (s : state) : state :=
-  mkState (plan s) (attempts s) (cur_host s) (cur_conn s) (cur_req s) (retries s) (timers s) (cur_timer s) x (fres s) (fexc s) (event s) (pairs s) (paging s) (start s) (pstart s) (timeout s) (now s) (queue s) (pools s) (started s) (tfired s) (results s).
+  mkState (plan s) (attempts s) (cur_host s) (cur_conn s) (cur_req s) (retries s) (timers s) (cur_timer s) x (fres s) (fexc s) (event s) (pairs s) (paging s) (start s) (pstart s) (timeout s) (now s) (queue s) (pools s) (started s) (tfired s) (results s) (chains s) (swallowed s).
 Definition set_fres (x : option Z) (s : state) : state :=
-  mkState (plan s) (attempts s) (cur_host s) (cur_conn s) (cur_req s) (retries s) (timers s) (cur_timer s) (specs s) x (fexc s) (event s) (pairs s) (paging s) (start s) (pstart s) (timeout s) (now s) (queue s) (pools s) (started s) (tfired s) (results s).
+  mkState (plan s) (attempts s) (cur_host s) (cur_conn s) (cur_req s) (retries s) (timers s) (cur_timer s) (specs s) x (fexc s) (event s) (pairs s) (paging s) (start s) (pstart s) (timeout s) (now s) (queue s) (pools s) (started s) (tfired s) (results s) (chains s) (swallowed s).
 Definition set_fexc (x : option Z) (s : state) : state :=
-  mkState (plan s) (attempts s) (cur_host s) (cur_conn s) (cur_req s) (retries s) (timers s) (cur_timer s) (specs s) (fres s) x (event s) (pairs s) (paging s) (start s) (pstart s) (timeout s) (now s) (queue s) (pools s) (started s) (tfired s) (results s).
+  mkState (plan s) (attempts s) (cur_host s) (cur_conn s) (cur_req s) (retries s) (timers s) (cur_timer s) (specs s) (fres s) x (event s) (pairs s) (paging s) (start s) (pstart s) (timeout s) (now s) (queue s) (pools s) (started s) (tfired s) (results s) (chains s) (swallowed s).
 Definition set_event (x : bool) (s : state) : state :=
-  mkState (plan s) (attempts s) (cur_host s) (cur_conn s) (cur_req s) (retries s) (timers s) (cur_timer s) (specs s) (fres s) (fexc s) x (pairs s) (paging s) (start s) (pstart s) (timeout s) (now s) (queue s) (pools s) (started s) (tfired s) (results s).
+  mkState (plan s) (attempts s) (cur_host s) (cur_conn s) (cur_req s) (retries s) (timers s) (cur_timer s) (specs s) (fres s) (fexc s) x (pairs s) (paging s) (start s) (pstart s) (timeout s) (now s) (queue s) (pools s) (started s) (tfired s) (results s) (chains s) (swallowed s).
 Definition set_pairs (x : list pair) (s : state) : state :=
-  mkState (plan s) (attempts s) (cur_host s) (cur_conn s) (cur_req s) (retries s) (timers s) (cur_timer s) (specs s) (fres s) (fexc s) (event s) x (paging s) (start s) (pstart s) (timeout s) (now s) (queue s) (pools s) (started s) (tfired s) (results s).
+  mkState (plan s) (attempts s) (cur_host s) (cur_conn s) (cur_req s) (retries s) (timers s) (cur_timer s) (specs s) (fres s) (fexc s) (event s) x (paging s) (start s) (pstart s) (timeout s) (now s) (queue s) (pools s) (started s) (tfired s) (results s) (chains s) (swallowed s).
 Definition set_paging (x : bool) (s : state) : state :=
-  mkState (plan s) (attempts s) (cur_host s) (cur_conn s) (cur_req s) (retries s) (timers s) (cur_timer s) (specs s) (fres s) (fexc s) (event s) (pairs s) x (start s) (pstart s) (timeout s) (now s) (queue s) (pools s) (started s) (tfired s) (results s).
+  mkState (plan s) (attempts s) (cur_host s) (cur_conn s) (cur_req s) (retries s) (timers s) (cur_timer s) (specs s) (fres s) (fexc s) (event s) (pairs s) x (start s) (pstart s) (timeout s) (now s) (queue s) (pools s) (started s) (tfired s) (results s) (chains s) (swallowed s).
 Definition set_start (x : Z) (s : state) : state :=
-  mkState (plan s) (attempts s) (cur_host s) (cur_conn s) (cur_req s) (retries s) (timers s) (cur_timer s) (specs s) (fres s) (fexc s) (event s) (pairs s) (paging s) x (pstart s) (timeout s) (now s) (queue s) (pools s) (started s) (tfired s) (results s).
+  mkState (plan s) (attempts s) (cur_host s) (cur_conn s) (cur_req s) (retries s) (timers s) (cur_timer s) (specs s) (fres s) (fexc s) (event s) (pairs s) (paging s) x (pstart s) (timeout s) (now s) (queue s) (pools s) (started s) (tfired s) (results s) (chains s) (swallowed s).
 Definition set_pstart (x : Z) (s : state) : state :=
-  mkState (plan s) (attempts s) (cur_host s) (cur_conn s) (cur_req s) (retries s) (timers s) (cur_timer s) (specs s) (fres s) (fexc s) (event s) (pairs s) (paging s) (start s) x (timeout s) (now s) (queue s) (pools s) (started s) (tfired s) (results s).
+  mkState (plan s) (attempts s) (cur_host s) (cur_conn s) (cur_req s) (retries s) (timers s) (cur_timer s) (specs s) (fres s) (fexc s) (event s) (pairs s) (paging s) (start s) x (timeout s) (now s) (queue s) (pools s) (started s) (tfired s) (results s) (chains s) (swallowed s).
 Definition set_timeout (x : option Z) (s : state) : state :=
-  mkState (plan s) (attempts s) (cur_host s) (cur_conn s) (cur_req s) (retries s) (timers s) (cur_timer s) (specs s) (fres s) (fexc s) (event s) (pairs s) (paging s) (start s) (pstart s) x (now s) (queue s) (pools s) (started s) (tfired s) (results s).
+  mkState (plan s) (attempts s) (cur_host s) (cur_conn s) (cur_req s) (retries s) (timers s) (cur_timer s) (specs s) (fres s) (fexc s) (event s) (pairs s) (paging s) (start s) (pstart s) x (now s) (queue s) (pools s) (started s) (tfired s) (results s) (chains s) (swallowed s).
 Definition set_now (x : Z) (s : state) : state :=
-  mkState (plan s) (attempts s) (cur_host s) (cur_conn s) (cur_req s) (retries s) (timers s) (cur_timer s) (specs s) (fres s) (fexc s) (event s) (pairs s) (paging s) (start s) (pstart s) (timeout s) x (queue s) (pools s) (started s) (tfired s) (results s).
+  mkState (plan s) (attempts s) (cur_host s) (cur_conn s) (cur_req s) (retries s) (timers s) (cur_timer s) (specs s) (fres s) (fexc s) (event s) (pairs s) (paging s) (start s) (pstart s) (timeout s) x (queue s) (pools s) (started s) (tfired s) (results s) (chains s) (swallowed s).
 Definition set_queue (x : list (bool * Z)) (s : state) : state :=
-  mkState (plan s) (attempts s) (cur_host s) (cur_conn s) (cur_req s) (retries s) (timers s) (cur_timer s) (specs s) (fres s) (fexc s) (event s) (pairs s) (paging s) (start s) (pstart s) (timeout s) (now s) x (pools s) (started s) (tfired s) (results s).
+  mkState (plan s) (attempts s) (cur_host s) (cur_conn s) (cur_req s) (retries s) (timers s) (cur_timer s) (specs s) (fres s) (fexc s) (event s) (pairs s) (paging s) (start s) (pstart s) (timeout s) (now s) x (pools s) (started s) (tfired s) (results s) (chains s) (swallowed s).
 Definition set_pools (x : list (Z * pstate)) (s : state) : state :=
-  mkState (plan s) (attempts s) (cur_host s) (cur_conn s) (cur_req s) (retries s) (timers s) (cur_timer s) (specs s) (fres s) (fexc s) (event s) (pairs s) (paging s) (start s) (pstart s) (timeout s) (now s) (queue s) x (started s) (tfired s) (results s).
+  mkState (plan s) (attempts s) (cur_host s) (cur_conn s) (cur_req s) (retries s) (timers s) (cur_timer s) (specs s) (fres s) (fexc s) (event s) (pairs s) (paging s) (start s) (pstart s) (timeout s) (now s) (queue s) x (started s) (tfired s) (results s) (chains s) (swallowed s).
 Definition set_started (x : bool) (s : state) : state :=
-  mkState (plan s) (attempts s) (cur_host s) (cur_conn s) (cur_req s) (retries s) (timers s) (cur_timer s) (specs s) (fres s) (fexc s) (event s) (pairs s) (paging s) (start s) (pstart s) (timeout s) (now s) (queue s) (pools s) x (tfired s) (results s).
+  mkState (plan s) (attempts s) (cur_host s) (cur_conn s) (cur_req s) (retries s) (timers s) (cur_timer s) (specs s) (fres s) (fexc s) (event s) (pairs s) (paging s) (start s) (pstart s) (timeout s) (now s) (queue s) (pools s) x (tfired s) (results s) (chains s) (swallowed s).
 Definition set_tfired (x : bool) (s : state) : state :=
-  mkState (plan s) (attempts s) (cur_host s) (cur_conn s) (cur_req s) (retries s) (timers s) (cur_timer s) (specs s) (fres s) (fexc s) (event s) (pairs s) (paging s) (start s) (pstart s) (timeout s) (now s) (queue s) (pools s) (started s) x (results s).
+  mkState (plan s) (attempts s) (cur_host s) (cur_conn s) (cur_req s) (retries s) (timers s) (cur_timer s) (specs s) (fres s) (fexc s) (event s) (pairs s) (paging s) (start s) (pstart s) (timeout s) (now s) (queue s) (pools s) (started s) x (results s) (chains s) (swallowed s).
 Definition set_results (x : list (Z * Z)) (s : state) : state :=
-  mkState (plan s) (attempts s) (cur_host s) (cur_conn s) (cur_req s) (retries s) (timers s) (cur_timer s) (specs s) (fres s) (fexc s) (event s) (pairs s) (paging s) (start s) (pstart s) (timeout s) (now s) (queue s) (pools s) (started s) (tfired s) x.
+  mkState (plan s) (attempts s) (cur_host s) (cur_conn s) (cur_req s) (retries s) (timers s) (cur_timer s) (specs s) (fres s) (fexc s) (event s) (pairs s) (paging s) (start s) (pstart s) (timeout s) (now s) (queue s) (pools s) (started s) (tfired s) x (chains s) (swallowed s).
+Definition set_chains (x : list (list Z * bool)) (s : state) : state :=
+  mkState (plan s) (attempts s) (cur_host s) (cur_conn s) (cur_req s) (retries s) (timers s) (cur_timer s) (specs s) (fres s) (fexc s) (event s) (pairs s) (paging s) (start s) (pstart s) (timeout s) (now s) (queue s) (pools s) (started s) (tfired s) (results s) x (swallowed s).
+Definition set_swallowed (x : Z) (s : state) : state :=
+  mkState (plan s) (attempts s) (cur_host s) (cur_conn s) (cur_req s) (retries s) (timers s) (cur_timer s) (specs s) (fres s) (fexc s) (event s) (pairs s) (paging s) (start s) (pstart s) (timeout s) (now s) (queue s) (pools s) (started s) (tfired s) (results s) (chains s) x.
